@@ -19,7 +19,8 @@ META = {
         "checkpoint limit L (child results are padded to an exact serialized length computed by a probe serialization; "
         "batch results are pushed over L by branch payloads that are individually below L), with/without summary "
         "generator, nested, with failing branches, followed by a wait and crashes so that replays happen; handler "
-        "results/errors of size R+d around the response limit R (ASCII and multi-byte). Mass exploration patches both "
+        "results/errors of size R+d around the response limit R (ASCII, 2-byte text sized by its escaped length, and 3-byte text whose "
+        "character count is below R while its UTF-8 size is above). Mass exploration patches both "
         "constants down from the test side (L in {600..4000}, R in {800..5000}); a few cases per run use the true "
         "256 KB / 6 MB constants. Oracle: no CONTEXT payload longer than L; ReplayChildren set iff the (known) serialized "
         "length exceeds L; every replay delivers a value equal to the first run's, enters no completed user function and "
@@ -143,7 +144,14 @@ def cases(draw):
         d = draw(delta)
         n = max(1, (R * 2) if d is None else R + d)
         uni = draw(st.integers(0, 3)) == 0 and not real
-        if uni:
+        uni3 = not uni and not real and draw(st.integers(0, 4)) == 0
+        if uni3:
+            # few characters, many bytes: fits R counted in characters but not in UTF-8 bytes, whatever the escaping
+            k = draw(st.sampled_from([R // 3 + 1, R // 2, R - 2, R // 3 - 2]))
+            hb = {"return": {"kind": "unicode_size", "n": max(1, k), "ch": draw(st.sampled_from(["\u20ac", "\u4e2d"]))}}
+            info["result_len"] = max(1, k) * 6 + 2
+            info["multibyte"] = True
+        elif uni:
             hb = {"return": {"kind": "unicode_size", "n": max(1, (n - 2) // 6), "ch": "é"}}
             info["result_len"] = max(1, (n - 2) // 6) * 6 + 2
         else:
@@ -175,7 +183,7 @@ def nontrivial(run, case):
     R = run.limits["response"]
     near = any(abs(n - L) <= 2 for n in ((run.world or {}).get("sizes") or {}).values())
     rl = case["c16"].get("result_len")
-    near = near or (rl is not None and abs(rl - R) <= 2)
+    near = near or (rl is not None and abs(rl - R) <= 2) or bool(case["c16"].get("multibyte"))
     rc_replay = any(e["replay_children"] for e in run.entries)
     if not (near or rc_replay):
         return None
@@ -186,6 +194,8 @@ def classes(run, case):
     out = ["kind:" + case["c16"]["kind"]]
     if case["c16"]["real"]:
         out.append("true-constants")
+    if case["c16"].get("multibyte"):
+        out.append("multibyte-result:chars<=R<bytes")
     if any(e["replay_children"] for e in run.entries):
         out.append("replay-children-replay")
     if run.backend.closed is not None:
